@@ -324,13 +324,15 @@ def gen_case(ctx, dspecs):
     poisoned = None
     if rng.random() < 0.5:
         pcats = ["Adj", "Det", "N"]
-        pcs = cases.gen_continuum(rng, n_annot=rng.randint(2, 3), sizes=None, max_units=5, allow_empty=False, labels=pcats,
-                                  family=rng.choice(["touching", "grid", "longoverlap"]))
+        npc = rng.randint(2, 3)       # a long chain of consecutive units per annotator: the unknown label is reached only
+        pcs = cases.gen_continuum(rng, n_annot=npc, sizes=[rng.randint(5, 7) for _ in range(npc)], labels=pcats,   # after several windows
+                                  family="touching")
         last = max(u[1] for us in pcs["ann"].values() for u in us)
         victim = rng.choice(sorted(pcs["ann"].keys()))
         pcs["ann"][victim].append([last + 5.0, last + 7.0, "UNKNOWN-LABEL"])       # reached only in a late window
-        poisoned = {"continuum": pcs, "dissim": {"kind": "precomputed", "cats": pcats, "delta": 1.0,
-                                                 "matrix": [[0.0, 0.5, 1.0], [0.5, 0.0, 0.25], [1.0, 0.25, 0.0]]}}
+        poisoned = {"continuum": pcs, "dissim": {"kind": "combined", "alpha": 3.0, "beta": 1.0, "delta": 1.0, "pos": None,
+                                                 "cat": {"kind": "precomputed", "cats": pcats, "delta": 1.0,
+                                                         "matrix": [[0.0, 0.5, 1.0], [0.5, 0.0, 0.25], [1.0, 0.25, 0.0]]}}}
     shared = None
     if rng.random() < 0.5:
         comp = cases.gen_dissim(rng, ["precomputed", "levenshtein", "ordinal", "absolute"])
